@@ -73,15 +73,28 @@ def applicable(writer, field, value):
     return True
 
 
+SHACL_SMALL = ["a", "\\", "'", "{", "#", "^", "$", "é", " "]
+
+
+def values_for(tier, writer):
+    """quick: all strings up to length 2; thorough: up to length 3 (SHACL: length 3 over a 9-class sub-alphabet, the
+    Turtle parser costs ~10 ms per file)."""
+    if tier == "quick":
+        return list(strings(alphabet(writer), 2))
+    if writer == "shacl":
+        base = list(strings(alphabet(writer), 2))
+        return base + [v for v in strings(SHACL_SMALL, 3, 3)]
+    return list(strings(alphabet(writer), 3))
+
+
 def units(tier, seed):
     us = []
-    n = 2
     for writer in ("epm", "jsonld", "shacl", "tsv"):
         for field in FIELDS:
             if not applicable(writer, field, "a"):
                 continue
-            vals = [v for v in strings(alphabet(writer), n) if applicable(writer, field, v)]
-            nch = 24 if writer == "shacl" else 6
+            vals = [v for v in values_for(tier, writer) if applicable(writer, field, v)]
+            nch = (24 if writer == "shacl" else 6) * (1 if tier == "quick" else 6)
             for ch in chunks(vals, nch):
                 us.append({"writer": writer, "field": field, "values": ch})
     return us
@@ -215,12 +228,12 @@ def replay(case):
 def describe(tier):
     return {
         "level": "model_checking",
-        "rule": "for each writer (EPM, JSON-LD plain+expanded, SHACL, TSV) and each field the format carries: all strings of length <= 2 over one "
+        "rule": "for each writer (EPM, JSON-LD plain+expanded, SHACL, TSV) and each field the format carries: all strings of length <= 2 (thorough: 3; SHACL length 3 over 9 classes) over one "
         "representative per character class (letter, digit, space, backslash, quote, braces, #, /, :, ., ^, $, |, %, non-ASCII, astral; EPM "
         "additionally double quote, <, >, tab, LF, CR) as that field of a record with synonyms and a pattern, next to a plain record; "
         "both values of include_synonyms and expand; files written and read on a tmpfs; distinct_nontrivial = cases whose value "
         "contains a non-alphanumeric class",
-        "bounds": {"string_len": 2, "classes": len(BASE_CLASSES), "epm_extra_classes": len(EPM_EXTRA)},
+        "bounds": {"string_len": 2 if tier == "quick" else 3, "classes": len(BASE_CLASSES), "epm_extra_classes": len(EPM_EXTRA), "shacl_len3_classes": len(SHACL_SMALL)},
         "exhaustive": True,
         "assumptions": ["patterns are None or non-empty", "no lone surrogates", "UTF-8 locale (the launcher sets PYTHONUTF8=1; the writers use the locale's default encoding)",
                         "with include_synonyms=True the file is read back with strict=False (it repeats the URI prefix for every synonym) and the full prefix_map is compared"],
